@@ -26,12 +26,14 @@ Definition cr_free (s : bytes) : bool := negb (mem_byte CR s).
 Definition nl_terminated (t : bytes) : bool := bytes_eqb (fix_nl t) t.
 
 (* C03 on the input s: Parse is total (statement-level model) and equals the
-   line-based parse; Parse . Format . Parse = Parse; every data is empty or
+   line-based parse; Format (statement-level, regenerated format string) is total and
+   equals the model's format on the parsed archive; Parse . Format . Parse = Parse; every data is empty or
    NL-terminated; names are well formed; the result is a well-formed archive;
    agreement with the x/tools reference when s has no CR *)
 Definition c03_holds_on (s : bytes) : bool :=
   let a := parse s in
   match parse_idx s with Ok a' => archive_eqb a' a | _ => false end
+  && match format_idx a with Ok t => bytes_eqb t (format a) | _ => false end
   && archive_eqb (parse (format a)) a
   && nl_terminated (comment a) && forallb (fun nd => nl_terminated (snd nd)) (files a)
   && forallb (fun nd => wf_name (fst nd)) (files a)
